@@ -3,6 +3,7 @@
 #define VF_GEN_H
 
 #include "geom.h"
+#include "wrap.h"
 
 namespace vf { namespace gen {
 
@@ -71,6 +72,7 @@ struct Scene {
   int collinear = 0;      // redundant collinear vertices inserted on edges
   bool flat = false;      // dense-scanline flat scene (few y levels, x stretched)
   bool tie = false;       // one crossing was nudged a hair past the y of another vertex (sweep-line tie)
+  bool wrap = false;      // the subject has a sharp corner whose cross product is exactly +-2^64 (or another power of two)
   long long crossings = 0;
 };
 
@@ -143,7 +145,7 @@ inline void lattice_snap(Rng& r, Paths64& pp, int64_t step, int64_t jitter) {
   for (auto& p : pp) strip_dups_closed(p);
 }
 
-struct GpCounters { long long tries = 0, rejected = 0, gave_up = 0, flat = 0, tie = 0; };
+struct GpCounters { long long tries = 0, rejected = 0, gave_up = 0, flat = 0, tie = 0, wrap = 0; };
 
 // Hostile scanline placement (sweep-line tie) for closed paths: move the x of one vertex until the crossing of one of its
 // edges with an edge of another path lies a hair past the y of some other vertex (0 < |yc - s| < 1/|dx1 - dx2|), so that
@@ -196,9 +198,10 @@ inline bool nudge_crossing_past_scanline(Rng& r, Scene& sc) {
 
 // dense-scanline flat scene: everything on a small y range (many vertices share few scanlines) and x stretched by k, so
 // that all edges are nearly horizontal and cross at very shallow angles (max |coord| about 2^20)
-inline bool flat_scene(Rng& r, GpCounters& gc, Scene& sc) {
-  static const int64_t ks[] = { 300, 1000, 3000, 10000 };
-  const int64_t k = ks[r.irange(0, 3)]; const int64_t Y = r.irange(12, 60), X = r.irange(12, 60); const int64_t oy = r.coin() ? -2 * Y : (r.coin() ? 2 * Y : 0);
+inline bool flat_scene(Rng& r, GpCounters& gc, Scene& sc, int magexp = 24) {
+  // (from 2^40 up also extremely flat scenes: edge extents of 2^31..2^36 over a few dozen units of height)
+  static const int64_t ks[] = { 300, 1000, 3000, 10000, (int64_t)1 << 20, (int64_t)1 << 26, (int64_t)1 << 28, (int64_t)1 << 30 };
+  const int64_t k = ks[r.irange(0, magexp >= 40 ? 7 : 3)]; const int64_t Y = r.irange(12, 60), X = r.irange(12, 60); const int64_t oy = r.coin() ? -2 * Y : (r.coin() ? 2 * Y : 0);
   for (int t = 0; t < 40; ++t) {
     auto poly = [&](int n) { Path64 p; for (int q = 0; q < n; ++q) p.push_back(Point64(r.range(-X, X) * k + r.range(-k / 3, k / 3), r.range(-Y, Y) + oy)); strip_dups_closed(p); return p; };
     sc.subj.clear(); sc.clip.clear();
@@ -221,10 +224,40 @@ inline bool flat_scene(Rng& r, GpCounters& gc, Scene& sc) {
 inline Scene gp_scene(Rng& r, GpCounters& gc, int magexp, int shape = -1, int max_tries = 60) {
   Scene sc; sc.magclass = magexp;
   const int64_t Mmax = (int64_t)1 << magexp;
-  if (shape < 0 && magexp >= 24 && r.chance(0.05) && flat_scene(r, gc, sc)) {
+  if (shape < 0 && magexp >= 24 && r.chance(magexp >= 40 ? 0.12 : 0.05) && flat_scene(r, gc, sc, magexp)) {
     ++gc.flat;
-    if (r.chance(0.7) && nudge_crossing_past_scanline(r, sc)) ++gc.tie;
+    const int keep = g_nudge_attempts; g_nudge_attempts = 200;
+    if (r.chance(0.8) && nudge_crossing_past_scanline(r, sc)) ++gc.tie;
+    g_nudge_attempts = keep;
     return sc;
+  }
+  // wrap corner (1.5% of the scenes from 2^40 up): the subject is a triangle with a sharp corner (turn > 90 degrees) whose
+  // cross product is exactly +-2^w, w = 64 mostly: zero in a w-bit word, so a collinearity test that compares truncated
+  // products takes the corner for a spike and removes it (and the whole triangle with it)
+  if (shape < 0 && magexp >= 40 && r.chance(0.015)) {
+    for (int t = 0; t < 12; ++t) {
+      int64_t v[4]; int w = 0;
+      if (r.coin() ? !(w = 64, wrap_twin(r, 64, 32, v)) : !wrap_twin_any(r, 36, v, &w)) continue;   // half: 2^64 with all components below 2^32
+      // edge vectors (a,c) then (d,b); cross = a*b - c*d; sharp: dot < 0
+      const i128 dotp = (i128)v[0] * v[3] + (i128)v[2] * v[1];
+      if (dotp >= 0) { v[3] = -v[3]; v[1] = -v[1]; }        // reversing the second edge negates cross and dot: still +-2^w
+      Point64 p1(r.range(-1000, 1000), r.range(-1000, 1000)), p2(p1.x + v[0], p1.y + v[2]), p3(p2.x + v[3], p2.y + v[1]);
+      if (cross(p1, p2, p3) == 0) continue;
+      sc.subj = Paths64{ Path64{ p1, p2, p3 } };
+      const int64_t cx = (p1.x + p2.x + p3.x) / 3, cy = (p1.y + p2.y + p3.y) / 3;
+      const int64_t Rr = std::max<int64_t>(64, std::max(std::max(p2.x - p1.x, p1.x - p2.x), std::max(p2.y - p1.y, p1.y - p2.y)) / r.irange(2, 6));
+      sc.clip = Paths64{ random_poly(r, cx, cy, Rr, r.irange(3, 5)) };
+      strip_dups_closed(sc.clip[0]);
+      if (sc.clip[0].size() < 3) continue;
+      Paths64 all = concat(sc.subj, sc.clip);
+      sc.M = max_abs_coord(all);
+      ++gc.tries;
+      GPStats st;
+      if (sc.M > Mmax || !general_position(all, sc.M, &st)) { ++gc.rejected; continue; }
+      sc.ok = true; sc.shape = 8; sc.squash = 0; sc.collinear = 0; sc.wrap = true; sc.R = (double)Rr; sc.crossings = st.crossings; sc.vacuous = false;
+      ++gc.wrap;
+      return sc;
+    }
   }
   for (int t = 0; t < max_tries; ++t) {
     ++gc.tries; sc.squash = 0;
